@@ -23,6 +23,16 @@ func c02Packets(r *rand.Rand, perLen int, emit func(p packet.Packet, kind string
 		p[0], p[3] = 0x47, p[3]&0x0f|0x10
 		emit(p, "payload-only")
 	}
+	// payload-only packets whose payload starts with bytes that mean something where an adaptation field would be
+	// (0x00 = "length 0", 183/184 = "fills the packet", 0xFF)
+	for _, b4 := range []byte{0x00, 0x01, 183, 184, 0xff} {
+		for _, b5 := range []byte{0x00, 0xff, 0x02} {
+			var p packet.Packet
+			r.Read(p[:])
+			p[0], p[3], p[4], p[5] = 0x47, p[3]&0x0f|0x10, b4, b5
+			emit(p, "payload-only")
+		}
+	}
 	// adaptation fields filled exactly by their optional fields (capacity for payload = what is left, 0 at 183)
 	for _, ln := range []int{183, 183, 182, 100, 20, 4} {
 		for v := 0; v < 4; v++ {
